@@ -214,6 +214,8 @@ def gen_c19_case(rng):
     k = rng.randint(1, max(1, n - 1))
     case['static_universe'] = rng.sample(case['assets'], k)
     case['signal'] = rng.choice([1.0, 0.5] if case['long_only'] else [1.0, -1.0])
+    case['optimiser'] = rng.choice(['fixed', 'fixed', 'equal', 'equal'])        # both shipped optimisers
+    case['scale'] = rng.choice([1.0, 1.0, 0.5, 2.0])
     if not any(a not in case['static_universe'] for a in case['seed_holdings']):
         outside = [a for a in case['assets'] if a not in case['static_universe']]
         if outside:
@@ -251,7 +253,14 @@ def run_c19_case(case, acc):
         sizer = DollarWeightedCashBufferedOrderSizer(broker, 'P', book, cash_buffer_percentage=case['buffer'])
     else:
         sizer = LongShortLeveragedOrderSizer(broker, 'P', book, gross_leverage=case['leverage'])
-    pcm = PortfolioConstructionModel(broker, 'P', uni, sizer, FixedWeightPortfolioOptimiser(), alpha_model=alpha)
+    member_weight = case['signal']
+    optimiser = FixedWeightPortfolioOptimiser()
+    if case.get('optimiser') == 'equal':
+        from qstrader.portcon.optimiser.equal_weight import EqualWeightPortfolioOptimiser
+        optimiser = EqualWeightPortfolioOptimiser(scale=case['scale'])
+        member_weight = case['scale'] / len(configured)         # the members share the scale equally; nobody else gets any
+        acc.count('C19:pcm_level_cases_with_the_equal_weight_optimiser')
+    pcm = PortfolioConstructionModel(broker, 'P', uni, sizer, optimiser, alpha_model=alpha)
     tr = sesswl.Trace()
     sesswl.CUR[0] = tr
     stats = {'target_allocations': []}
@@ -277,8 +286,9 @@ def run_c19_case(case, acc):
                 if a not in configured and row[a] != 0.0:
                     raise Violation('C19', 'weight-outside-universe', 'held asset %s outside the universe got weight %r at '
                                     'rebalance %d' % (a, row[a], i + 1), {})
-                if a in configured and row[a] != case['signal']:
-                    raise Violation('C19', 'member-weight', 'member %s has weight %r, alpha gives %r' % (a, row[a], case['signal']), {})
+                if a in configured and abs(row[a] - member_weight) > 1e-12 * abs(member_weight):
+                    raise Violation('C19', 'member-weight', 'member %s has weight %r, the %s optimiser over the %d members gives %r'
+                                    % (a, row[a], case.get('optimiser', 'fixed'), len(configured), member_weight), {})
             for a, q in rec['orders']:
                 if a not in configured and a not in rec['held']:
                     raise Violation('C19', 'order-outside-universe', 'order for %s which is neither member nor held' % a, {})
